@@ -1,9 +1,10 @@
 import Orb.Proto
 import Orb.Tile
+import Orb.TileGeo
 
 /-! Driver for C13 (map tile arithmetic). -/
 namespace Driver.C13
-open Orb Orb.Proto Orb.Tile
+open Orb Orb.Proto Orb.Tile Orb.TileGeo
 
 def showTile (t : Tile) : String := s!"{t.x} {t.y} {t.z}"
 def showTiles (ts : List Tile) : String := " ".intercalate (ts.map showTile)
@@ -113,7 +114,111 @@ def handleCiz (inp out : Toks) : String :=
 
 def fbits (f : Float) : String := floatToHex f
 
-/-- `at lon lat z => fx fy tx ty bminx bminy bmaxx bmaxy ctx cty` -/
+/-! ### Float twin of `Orb.TileGeo` on top of Go's own libm values
+
+  Go's `math.Sin/Log/Exp/Atan` are not bit-compatible with any libm Lean can call, so every
+  geography case carries, after the implementation's outcome, the table `T n (fn arg value)*` of the
+  libm calls the Go code makes on this input (recorded by a mirror in the harness, values from Go's
+  `math`).  `Orb.TileGeo` is instantiated at `OF` (a `Float` plus an "oracle hit" flag) with
+  `mercY := mercYGo L`, `latOf := latOfGo L` and `L.sin/log/exp/atan` reading that table: the model
+  redoes ALL the arithmetic of `Fraction/At/Bound/Center/ToGeo` on top of Go's libm values and must
+  reproduce the implementation's outputs bit for bit.  An argument the table does not contain
+  (`oracle-miss`) means model and code no longer compute the same intermediate values: `diff`.
+-/
+
+/-- A `Float` together with "every libm value it depends on was found in the table". -/
+structure OF where
+  v : Float
+  ok : Bool := true
+deriving Inhabited
+
+instance : Add OF := ⟨fun a b => ⟨a.v + b.v, a.ok && b.ok⟩⟩
+instance : Sub OF := ⟨fun a b => ⟨a.v - b.v, a.ok && b.ok⟩⟩
+instance : Mul OF := ⟨fun a b => ⟨a.v * b.v, a.ok && b.ok⟩⟩
+instance : Div OF := ⟨fun a b => ⟨a.v / b.v, a.ok && b.ok⟩⟩
+instance : Neg OF := ⟨fun a => ⟨-a.v, a.ok⟩⟩
+instance : LT OF := ⟨fun a b => a.v < b.v⟩
+instance : DecidableLT OF := fun a b => inferInstanceAs (Decidable (a.v < b.v))
+instance {n : Nat} : OfNat OF n := ⟨⟨Float.ofNat n, true⟩⟩
+
+def ofB (b : UInt64) : OF := ⟨Float.ofBits b, true⟩
+
+/-- one recorded libm call -/
+structure Ent where
+  fn : String
+  a : UInt64
+  v : UInt64
+
+def nanF : Float := Float.ofBits 0x7FF8000000000001
+
+def look (t : Array Ent) (fn : String) (x : OF) : OF :=
+  if x.v.isNaN then ⟨nanF, x.ok⟩ else
+  match t.find? (fun e => e.fn == fn && e.a == x.v.toBits) with
+  | some e => ⟨Float.ofBits e.v, x.ok⟩
+  | none => ⟨nanF, false⟩
+
+def entP : P Ent := fun ts =>
+  match ts with
+  | fn :: ts => do
+    let (a, ts) ← bits ts
+    let (v, ts) ← bits ts
+    pure (⟨fn, a, v⟩, ts)
+  | [] => none
+
+def tableP : P (Array Ent) := fun ts =>
+  match ts with
+  | "T" :: ts => (counted entP ts).map fun (l, ts) => (l.toArray, ts)
+  | _ => none
+
+/-- `math.Pi`, `2*math.Pi`, `180.0/math.Pi`, the literal `85.0511` as float64
+    (checked against the Go side by the `consts` case). -/
+def piBits : UInt64 := 0x400921FB54442D18
+def twoPiBits : UInt64 := 0x401921FB54442D18
+def d180piBits : UInt64 := 0x404CA5DC1A63C1F8
+def latMaxBits : UInt64 := 0x4055434538EF34D7
+
+def mkLibm (t : Array Ent) : Libm OF where
+  sin := look t "s"
+  log := look t "l"
+  atan := look t "a"
+  exp := look t "e"
+  pi := ofB piBits
+  twoPi := ofB twoPiBits
+  d180pi := ofB d180piBits
+
+/-- `uint32(f)` on amd64: truncation toward zero to int64, low 32 bits (in range: the floor). -/
+def floorU32F (x : OF) : Nat := (x.v.toInt64.toInt % (2 ^ 32 : Int)).toNat
+
+def mkEnv (t : Array Ent) : Env OF where
+  mercY := mercYGo (mkLibm t)
+  latOf := latOfGo (mkLibm t)
+  floorU32 := floorU32F
+  ofNat := fun n => ⟨Float.ofNat n, true⟩
+  latMax := ofB latMaxBits
+
+/-- bit equality, all NaNs identified -/
+def sameF (m : Float) (b : UInt64) : Bool := m.toBits == b || (m.isNaN && (Float.ofBits b).isNaN)
+
+/-- Compare model values with implementation values.  `none` = agree. -/
+def cmpAll (ms : List OF) (bs : List UInt64) : Option String :=
+  if ms.any (fun m => !m.ok) then some "diff oracle-miss"
+  else if ms.length != bs.length then some "diff arity"
+  else if (ms.zip bs).all (fun (m, b) => sameF m.v b) then none
+  else some ("diff" ++ ms.foldl (fun s m => s ++ " " ++ fbits m.v) "")
+
+def bnd4 (b : Bnd OF) : List OF := [b.min.x, b.min.y, b.max.x, b.max.y]
+
+/-- `consts => pi 2pi -2pi 180/pi 85.0511 -85.0511 0.5` -/
+def handleConsts (out : Toks) : String :=
+  match many bits 7 out with
+  | some (l, _) =>
+    let E := mkEnv #[]
+    let L := mkLibm #[]
+    let want : List Float := [L.pi.v, L.twoPi.v, (-L.twoPi).v, L.d180pi.v, E.latMax.v, (-E.latMax).v, ((1 : OF) / 2).v]
+    if want.map Float.toBits == l then "ok consts" else "diff " ++ " ".intercalate (want.map fbits)
+  | none => "bad consts"
+
+/-- `at lon lat z => fx fy tx ty bminx bminy bmaxx bmaxy ctx cty cx cy cfx cfy T…` -/
 def handleAt (inp out : Toks) : String :=
   match (do
     let (lon, i) ← bits inp
@@ -125,23 +230,36 @@ def handleAt (inp out : Toks) : String :=
     let (ty, o) ← nat o
     let (b, o) ← many bits 4 o
     let (ctx, o) ← nat o
-    let (cty, _) ← nat o
-    pure (lon, lat, z, fx, fy, tx, ty, b, ctx, cty)) with
-  | none => "bad at"
-  | some (lonb, latb, z, fxb, fyb, tx, ty, b, ctx, cty) =>
+    let (cty, o) ← nat o
+    let (c, o) ← many bits 4 o
+    let (t, _) ← tableP o
+    pure (lon, lat, z, fx, fy, tx, ty, b, ctx, cty, c, t)) with
+  | none => if out == ["panic"] then "propfail panic" else "bad at"
+  | some (lonb, latb, z, fxb, fyb, tx, ty, b, ctx, cty, c, tbl) =>
     let lon := Float.ofBits lonb
     let lat := Float.ofBits latb
-    let maxtiles := (Float.ofNat (2^z % 2^32))
-    -- Float twin of the x fraction (same operators, same order as maptile.Fraction)
-    let mfx := (lon / 360.0 + 0.5) * maxtiles
-    let fx := Float.ofBits fxb
     let fy := Float.ofBits fyb
-    -- uint32(f) truncation (f is in range here), then At's clamp to the last column
     let n := 2^z
-    let mtx := if fx.floor.toUInt64.toNat ≥ n then n - 1 else fx.floor.toUInt64.toNat
-    let agree := mfx.toBits == fxb && mtx == tx && !(fy ≥ 0 && fy < Float.ofNat n && fy.floor.toUInt64.toNat != ty)
+    -- the Float twin: Fraction, At, Bound of the found tile, its Center, Fraction and At of the centre
+    let E := mkEnv tbl
+    let ll : Pt OF := ⟨ofB lonb, ofB latb⟩
+    let mf := fraction E ll z
+    let mt := at_ E ll z
+    let mb := bound E mt 0
+    let mc := center E mt
+    let mcf := fraction E mc z
+    let mct := at_ E mc z
+    let agree :=
+      match cmpAll ([mf.x, mf.y] ++ bnd4 mb ++ [mc.x, mc.y, mcf.x, mcf.y]) ([fxb, fyb] ++ b ++ c) with
+      | some d => some d
+      | none =>
+        if mt.x == tx && mt.y == ty && mct.x == ctx && mct.y == cty then none
+        else some s!"diff tile={mt.x},{mt.y} centre-tile={mct.x},{mct.y}"
     let fin (s : String) : String :=
-      if s.startsWith "propfail" || agree then s else s!"diff fx={fbits mfx} tx={mtx}"
+      if s.startsWith "propfail" then s else
+      match agree with
+      | none => s
+      | some d => d
     fin <|
     -- property: the tile is valid
     if !(tx < n && ty < n) then "propfail at-valid" else
@@ -167,15 +285,26 @@ def handleAt (inp out : Toks) : String :=
       else "ok at"
     | _ => "bad at-bound"
 
-/-- `nbr x y z => tb(4) rb(4) db(4) c0(4) c1(4) c2(4) c3(4)`:
+/-- `nbr x y z => tb(4) rb(4) db(4) c0(4) c1(4) c2(4) c3(4) T…`:
     bounds of the tile, its right and lower neighbours, and its four children. -/
 def handleNbr (inp out : Toks) : String :=
   match (do
     let (t, _) ← tileP inp
-    let (fs, _) ← many bits 28 out
-    pure (t, fs)) with
-  | none => "bad nbr"
-  | some (_t, fs) =>
+    let (fs, o) ← many bits 28 out
+    let (tbl, _) ← tableP o
+    pure (t, fs, tbl)) with
+  | none => if out == ["panic"] then "propfail panic" else "bad nbr"
+  | some (t, fs, tbl) =>
+    -- the Float twin: the seven bounds
+    let E := mkEnv tbl
+    let tiles : List Tile := [t, ⟨add32 t.x 1, t.y, t.z⟩, ⟨t.x, add32 t.y 1, t.z⟩] ++ children t
+    let agree := cmpAll (tiles.flatMap fun u => bnd4 (bound E u 0)) fs
+    let fin (s : String) : String :=
+      if s.startsWith "propfail" then s else
+      match agree with
+      | none => s
+      | some d => d
+    fin <|
     let g (i : Nat) : UInt64 := fs.getD i 0
     -- layout of a bound: minx miny maxx maxy
     let tb := 0; let rb := 4; let db := 8; let c0 := 12; let c1 := 16; let c2 := 20; let c3 := 24
@@ -190,6 +319,31 @@ def handleNbr (inp out : Toks) : String :=
     if g (c0+1) != g (c3+3) || g (c1+1) != g (c2+3) then "propfail children-mid-y" else
     "ok nbr"
 
+/-- `bnd x y z buffer => buffered(4) plain(4) T…`: `Tile.Bound(buffer)` with its two clamps. -/
+def handleBnd (inp out : Toks) : String :=
+  match (do
+    let (t, i) ← tileP inp
+    let (buf, _) ← bits i
+    let (fs, o) ← many bits 8 out
+    let (tbl, _) ← tableP o
+    pure (t, buf, fs, tbl)) with
+  | none => if out == ["panic"] then "propfail panic" else "bad bnd"
+  | some (t, bufb, fs, tbl) =>
+    let E := mkEnv tbl
+    let buf := ofB bufb
+    match cmpAll (bnd4 (bound E t buf) ++ bnd4 (bound E t 0)) fs with
+    | some d => d
+    | none =>
+      let y := Float.ofNat t.y
+      let n := Float.ofNat (2 ^ t.z)
+      let lo := y - buf.v < 0
+      let hi := y + 1 + buf.v > n
+      if buf.v == 0 then "ok bnd-nobuffer"
+      else if lo && hi then "ok bnd-clamp-both"
+      else if lo then "ok bnd-clamp-top"
+      else if hi then "ok bnd-clamp-bottom"
+      else "ok bnd-buffer"
+
 def handle (ts : Toks) : String :=
   match ts with
   | op :: rest =>
@@ -199,6 +353,8 @@ def handle (ts : Toks) : String :=
     | "ciz" => handleCiz inp out
     | "at" => handleAt inp out
     | "nbr" => handleNbr inp out
+    | "bnd" => handleBnd inp out
+    | "consts" => handleConsts out
     | _ => "bad op " ++ op
   | [] => "bad empty"
 
